@@ -7,7 +7,7 @@
 (*   [ev |-> "Fault", k, mode]                    the process was killed / a call  *)
 (*                                                raised at point k               *)
 (*   [ev |-> "Raise", where]                      the edited script raises        *)
-(*   [ev |-> "Attempt", exit, fresh, unchanged, rewrote]                         *)
+(*   [ev |-> "Attempt", exit, fresh, diff, unchanged, rewrote]                   *)
 (*        one run of the backend's regeneration step: exit status, whether the   *)
 (*        build file and every declared output equal a fresh configure, whether  *)
 (*        the build file is byte-identical to what it was before the run, and    *)
@@ -34,7 +34,11 @@ Fault(e) == /\ Need(e.k = lastk, "FaultAtLastLoggedPoint", e.k)
             /\ settled' = FALSE /\ lastk' = 0 /\ UNCHANGED raising
 Attempt(e) ==
   \* C10 NoSilentStale / C08 EqualsFresh: success only with fresh outputs
-  /\ Need(e.exit = 0 => e.fresh, "SuccessImpliesFreshBuildFiles", e.exit)
+  \* (a difference that is only the ORDER of the dist recipes' file list - the recorded finding - is
+  \*  reported as a SOFT rejection: the verdict is the same, but the rest of the history is still examined)
+  /\ IF e.exit = 0 /\ ~e.fresh /\ e.diff = "dist-order"
+       THEN Say(<<"SOFT", Traces[t].id, "SuccessImpliesFreshBuildFiles", l, e.diff>>)
+       ELSE Need(e.exit = 0 => e.fresh, "SuccessImpliesFreshBuildFiles", e.exit)
   \* C10: a raising script leaves the previous build file untouched and fails visibly
   /\ Need(raising => (e.exit # 0 /\ e.unchanged), "RaisingScriptKeepsBuildFile", e.exit)
   \* C08 Converges: right after a successful regeneration nothing is regenerated again
